@@ -449,6 +449,10 @@ impl DebugInformation {
                     // only one place for a single unique subprogram is allowed
                     // to apply this rule as a filter for all places
                     if let Some((func, info)) = self.find_function_by_pc(suitable_place.address)? {
+                        // line rows of a function discarded by the linker are relocated to zero
+                        if func.ranges().iter().any(|range| range.begin == 0) {
+                            continue;
+                        }
                         let key = Key {
                             name: info.name.clone(),
                             range: func.ranges(),
@@ -528,6 +532,8 @@ impl DebugInformation {
         Ok(self
             .search_functions(template)?
             .into_iter()
+            // functions discarded by the linker keep their DIEs with addresses relocated to zero
+            .filter(|(fn_ref, _)| fn_ref.ranges().iter().all(|range| range.begin != 0))
             .filter_map(|(fn_ref, _)| {
                 weak_error!(fn_ref.prolog_end_place()).map(|place| place.to_owned())
             })
